@@ -143,9 +143,10 @@ const Y: &str = "b c";
 
 fn configs() -> Vec<Config> {
     let mut v = vec![];
-    for x in [None, Some(""), Some("a"), Some("a b"), Some(" a  b "), Some("a:b"), Some(":a::b:"), Some("a: b")] {
+    for x in [None, Some(""), Some("a"), Some("a b"), Some(" a  b "), Some("a:b"), Some(":a::b:"), Some("a: b"), Some("aéb é")] {
         for params in [vec![], vec![""], vec!["a"], vec!["a b", "c"], vec!["", "a", ""]] {
-            for ifs in [None, Some(" \t\n"), Some(""), Some(":"), Some(": "), Some(" :"), Some("a")] {
+            // (`é`: a multi-byte character as a field separator and inside values)
+            for ifs in [None, Some(" \t\n"), Some(""), Some(":"), Some(": "), Some(" :"), Some("a"), Some("é")] {
                 for nounset in [false, true] {
                     v.push(Config { x, params: params.clone(), ifs, nounset });
                 }
